@@ -78,6 +78,16 @@ def cases(tier: str, seed: int) -> list[dict]:
         ks = sorted(rng.randint(0, size) for _ in range(ncuts))
         cuts = [{'at': 'file', 'K': k, 'mode': rng.choice(['rst', 'rst', 'timeout'])} for k in ks]
         add(kind='pair', size=size, cuts=cuts, randomize=True)
+    # the local partial file changes between attempts (truncated by the user / another program) and
+    # user pause + re-queue in mid-transfer: the resume offset must follow the file, not a counter
+    n_var = 40 if tier == 'quick' else 1500
+    for i in range(n_var):
+        size = rng.choice([8193, 3 * 8192 + 5, 100000])
+        k = rng.randint(1, size - 1)
+        if i % 2 == 0:
+            add(kind='pair', size=size, cuts=[{'at': 'file', 'K': k, 'mode': 'rst'}], truncate=True)
+        else:
+            add(kind='pair', size=size, cuts=[], pause=True)
     n_dis = 40 if tier == 'quick' else 1500
     for i in range(n_dis):
         add(kind='dishonest', i=i)
@@ -118,6 +128,8 @@ def _run_pair(params: dict) -> dict:
     mode = rng.choice(['race', 'fallback'])
     seg = rng.choice(['random', 'random', 'bytes1' if size <= 300 else 'fixed:1000', 'whole'])
     limits = rng.choice([(0, 0), (0, 0), (64, 0), (0, 64), (32, 32)])
+    if params.get('pause'):
+        limits = rng.choice([(32, 0), (0, 32), (16, 16)])
     exec_delay = rng.choice([0.0, 0.0, 0.02])
     ctl_lat = rng.choice([(0.0005, 0.004), (0.01, 0.05), (0.0, 0.0)])
     file_lat = rng.choice([(0.0005, 0.004), (0.01, 0.05), (0.0, 0.0)])
@@ -203,6 +215,14 @@ def _run_pair(params: dict) -> dict:
 
         def on_edge(transfer, old, new):
             trace.append((round(w.now, 4), transfer.direction.name[0], old, new))
+            if transfer is t and params.get('truncate') and old == 'DOWNLOADING' and new == 'INCOMPLETE' \
+                    and not state.get('truncated'):
+                lp = transfer.local_path
+                if lp and os.path.exists(lp) and os.path.getsize(lp) > 1:
+                    state['truncated'] = True
+                    new_len = rng.randint(0, os.path.getsize(lp) - 1)
+                    # done after the prefix check below has seen the untouched file
+                    state['truncate_to'] = (lp, new_len)
             if transfer is t:
                 if old == 'DOWNLOADING':
                     lp = transfer.local_path
@@ -213,6 +233,11 @@ def _run_pair(params: dict) -> dict:
                                                                  'first_diff': _first_diff(data, source)}))
                     if new == 'FAILED' and transfer.fail_reason is None:
                         viol.append(('download-failed-without-reason', {'edge': f'{old}->{new}'}))
+                    if state.get('truncate_to'):
+                        lp2, new_len = state.pop('truncate_to')
+                        with open(lp2, 'r+b') as fh:
+                            fh.truncate(new_len)
+                        trace.append((round(w.now, 4), 'harness-truncated-local-file', new_len))
                 if new == 'COMPLETE':
                     obs['complete_checks'] += 1
                     lp = transfer.local_path
@@ -238,6 +263,29 @@ def _run_pair(params: dict) -> dict:
                     if not (up_tr._rx_eof or up_tr._lost or up_tr._closing):
                         viol.append(('upload-complete-before-peer-closed', {'offset': fc.offset}))
         tm.edge_hooks.append(on_edge)
+
+        async def pauser():
+            # pause while the download is running, re-queue a little later (several rounds)
+            for _ in range(rng.randint(1, 3)):
+                for _ in range(4000):
+                    if state_name(t) == 'DOWNLOADING' and t.bytes_transfered > 0:
+                        break
+                    if state_name(t) == 'COMPLETE':
+                        return
+                    await asyncio.sleep(rng.choice([0.001, 0.003, 0.01]))
+                try:
+                    await dn.client.transfers.pause(t)
+                    trace.append((round(w.now, 4), 'user-pause', t.bytes_transfered))
+                except Exception as exc:  # noqa
+                    trace.append((round(w.now, 4), 'user-pause-refused', type(exc).__name__))
+                await asyncio.sleep(rng.choice([0.0, 0.05, 1.0]))
+                try:
+                    await dn.client.transfers.queue(t)
+                    trace.append((round(w.now, 4), 'user-queue'))
+                except Exception as exc:  # noqa
+                    trace.append((round(w.now, 4), 'user-queue-refused', type(exc).__name__))
+        if params.get('pause'):
+            w.spawn('dn', pauser(), name='vf-pauser')
 
         def both_complete():
             ups = up.client.transfers.transfers
